@@ -117,10 +117,17 @@ func registerCompiledRoute(router *server.Router, route *ast.Route, bytecode []b
 }
 
 // createCompiledRouteHandler creates an HTTP handler that executes compiled bytecode
+// maxCompiledRouteSteps bounds the VM instructions one compiled request may
+// execute; exceeding it fails the request with the generic 500.
+const maxCompiledRouteSteps = 10_000_000
+
 func createCompiledRouteHandler(route *ast.Route, bytecode []byte, wsHub *websocket.Hub) server.RouteHandler {
 	return func(ctx *server.Context) error {
-		// Create VM instance
+		// Create VM instance. Without a step limit a route that never ends
+		// (while true {}) holds its goroutine and a CPU forever; the
+		// interpreter bounds the same program with its loop iteration limit.
 		vmInstance := vm.NewVM()
+		vmInstance.SetMaxSteps(maxCompiledRouteSteps)
 
 		// Set up WebSocket stats handler if hub is available
 		if wsHub != nil {
